@@ -142,14 +142,17 @@ def cpuStep (W : World) (t : Tracee) : Tracee :=
   else { t with wild := true }
 
 /-- PTRACE_CONT + waitpid: `call *%rax` pushes the return address and enters the callee; the callee returns
-(assumption: no signal, no exit, breakpoints are disabled) onto the `int3` that follows -/
+(assumption: no signal, no exit, breakpoints are disabled) onto the `int3` that follows.
+`atEntry` = the thread at the callee's first instruction. -/
+def atEntry (t : Tracee) : Tracee :=
+  { t with
+    regs := (t.regs.set Rsp (t.regs Rsp - 8)).set Rip (t.regs Rax),
+    mem := poke t.mem (t.regs Rsp - 8) (t.regs Rip + 2),
+    entered := t.entered ++ [(t.regs Rax, argRegs.map t.regs)] }
+
 def cpuCont (W : World) (t : Tracee) : Tracee :=
   if peek t.mem (t.regs Rip) % 16777216 = CALL_FN then
-    let t1 : Tracee := { t with
-      regs := (t.regs.set Rsp (t.regs Rsp - 8)).set Rip (t.regs Rax),
-      mem := poke t.mem (t.regs Rsp - 8) (t.regs Rip + 2),
-      entered := t.entered ++ [(t.regs Rax, argRegs.map t.regs)] }
-    let t2 := W.callee t1
+    let t2 := W.callee (atEntry t)
     { t2 with regs := t2.regs.set Rip (t.regs Rip + 3) }
   else { t with wild := true }
 
